@@ -10,7 +10,17 @@ import (
 // surrogates, bytes that can never occur, a code point above U+10FFFF
 var badChunks = [][]byte{{0x80}, {0xbf}, {0xc0, 0x80}, {0xc1, 0xbf}, {0xc2}, {0xe0, 0x80, 0x80}, {0xe0, 0x9f, 0xbf}, {0xe2, 0x82}, {0xe2},
 	{0xed, 0xa0, 0x80}, {0xed, 0xbf, 0xbf}, {0xf0, 0x9f}, {0xf0, 0x9f, 0x98}, {0xf0, 0x8f, 0xbf, 0xbf}, {0xf5}, {0xff}, {0xfe},
-	{0xf4, 0x90, 0x80, 0x80}, {0xf8, 0x88, 0x80, 0x80, 0x80}}
+	{0xf4, 0x90, 0x80, 0x80}, {0xf8, 0x88, 0x80, 0x80, 0x80},
+	// overlong encodings of characters that matter to the rules (a decoder that forgets a range check
+	// would see a letter, a digit, a quote, a full stop or a line break instead of U+FFFD)
+	{0xc1, 0xa1}, {0xc1, 0x81}, {0xc0, 0xb1}, {0xc0, 0x8a}, {0xc0, 0x8d}, {0xc0, 0xae}, {0xc0, 0xa7}, {0xc0, 0xba}, {0xc0, 0xa0},
+	{0xe0, 0x81, 0xa1}, {0xe0, 0x80, 0xb1}, {0xe0, 0x80, 0x8a}, {0xe0, 0x80, 0x8d}, {0xe0, 0x82, 0x85}, {0xe0, 0x80, 0xae},
+	{0xf0, 0x80, 0x81, 0xa1}, {0xf0, 0x80, 0x80, 0x8a}, {0xf0, 0x82, 0x80, 0xa8}, {0xe2, 0x80}, {0xed, 0xa0, 0xbd, 0xed, 0xb8, 0x80}}
+
+// run lengths around powers of two and other round numbers: a bounded window, a counter of the wrong
+// unit or a width field that is too narrow shows only there
+var specialRuns = []int{15, 16, 17, 31, 32, 33, 63, 64, 65, 100, 127, 128, 129, 160, 161, 200, 255, 256, 257, 300, 511, 512, 513, 600, 1023, 1024, 1025}
+var hugeRuns = []int{1500, 2047, 2048, 2049, 4095, 4096, 4097}
 
 type template struct {
 	alg byte // 'G', 'W', 'S', 'L'
@@ -195,7 +205,7 @@ func genTemplate(r *rng) genCase {
 	// occasionally stretch one repeated token far beyond its nominal range: rules with "X*" and
 	// look-ahead loops are unbounded
 	stretch := -1
-	if r.chance(1, 8) {
+	if r.chance(1, 6) {
 		stretch = r.intn(len(t.toks))
 	}
 	for ; reps > 0; reps-- {
@@ -203,6 +213,28 @@ func genTemplate(r *rng) genCase {
 			n := tok.min + r.intn(tok.max-tok.min+1)
 			if ti == stretch && tok.max > tok.min {
 				n = tok.max + 1 + r.intn(40)
+				if r.chance(1, 3) {
+					n = specialRuns[r.intn(len(specialRuns))]
+				} else if r.chance(1, 12) {
+					n = hugeRuns[r.intn(len(hugeRuns))]
+				}
+				stretch = -1 // once per case
+				if r.chance(1, 10) {
+					// a run of ill-formed bytes where the rule allows a run of ignorable code points
+					chunk := badChunks[r.intn(len(badChunks))]
+					for i := 0; i < n; i++ {
+						b = append(b, chunk...)
+					}
+					continue
+				}
+				if r.chance(1, 2) {
+					// one member repeated (a long run of the same mark), else a mix
+					x := pickRune(r, t.alg, tok.classes[r.intn(len(tok.classes))])
+					for i := 0; i < n; i++ {
+						b = appendRune(b, x)
+					}
+					continue
+				}
 			}
 			for i := 0; i < n; i++ {
 				b = appendRune(b, pickRune(r, t.alg, tok.classes[r.intn(len(tok.classes))]))
@@ -243,12 +275,60 @@ func genMalformed(r *rng) genCase {
 		if len(b) > 0 {
 			pos = r.intn(len(b) + 1)
 		}
+		if r.chance(1, 5) {
+			pos = len(b) // at the very end: DecodeLastRune and the end-of-input branches
+		}
 		if r.chance(3, 4) {
 			for pos < len(b) && !utf8.RuneStart(b[pos]) {
 				pos++
 			}
 		}
 		chunk := badChunks[r.intn(len(badChunks))]
+		switch r.intn(5) {
+		case 0:
+			// a random lead byte followed by up to three bytes that are continuation bytes, ASCII or leads
+			chunk = []byte{byte(0xc0 + r.intn(0x40))}
+			for n := r.intn(4); n > 0; n-- {
+				switch r.intn(3) {
+				case 0:
+					chunk = append(chunk, byte(0x80+r.intn(0x40)))
+				case 1:
+					chunk = append(chunk, byte('a'+r.intn(26)))
+				default:
+					chunk = append(chunk, byte(0xc0+r.intn(0x40)))
+				}
+			}
+		case 1:
+			// a corrupted copy of a multi-byte code point of the input, same length, in front of the original:
+			// the lead byte stays, continuation bytes become ASCII, leads, or out-of-range continuation bytes
+			for try := 0; try < 8 && len(b) > 0; try++ {
+				q := r.intn(len(b))
+				for q < len(b) && !utf8.RuneStart(b[q]) {
+					q++
+				}
+				if q >= len(b) {
+					continue
+				}
+				_, sz := utf8.DecodeRune(b[q:])
+				if sz < 2 {
+					continue
+				}
+				cp := append([]byte{}, b[q:q+sz]...)
+				for i := 1; i < sz; i++ {
+					switch r.intn(4) {
+					case 0:
+						cp[i] = byte('a' + r.intn(26))
+					case 1:
+						cp[i] = cp[0]
+					case 2:
+						cp[i] ^= 0x40
+					}
+				}
+				chunk = cp
+				pos = q
+				break
+			}
+		}
 		nb := append([]byte{}, b[:pos]...)
 		nb = append(nb, chunk...)
 		nb = append(nb, b[pos:]...)
@@ -260,14 +340,196 @@ func genMalformed(r *rng) genCase {
 	return genCase{input: b, kind: "malformed", tplIdx: base.tplIdx}
 }
 
+// genASCIIRun: a run of ASCII bytes of a length around a multiple of 8 with a few punctuation bytes,
+// digits and spaces inside, next to something that attaches to or interacts with its ends - the shape
+// that word-at-a-time and "printable ASCII" fast paths get wrong
+func genASCIIRun(r *rng) genCase {
+	var b []byte
+	algs := []byte("GWSL")
+	if r.chance(1, 2) {
+		b = appendRune(b, randomRune(r, algs[r.intn(4)]))
+	}
+	lens := []int{7, 8, 9, 15, 16, 17, 23, 24, 25, 31, 32, 33, 63, 64, 65}
+	n := lens[r.intn(len(lens))]
+	letters := "abcdefghijklmnopqrstuvwxyzABCDEFGHIJKLMNOPQRSTUVWXYZ"
+	other := "0123456789 .,:;'\"!?()[]{}|\\/@#$%^&*-_=+<>~`\x7f\t"
+	for i := 0; i < n; i++ {
+		if r.chance(1, 8) {
+			b = append(b, other[r.intn(len(other))])
+		} else {
+			b = append(b, letters[r.intn(len(letters))])
+		}
+	}
+	switch r.intn(6) {
+	case 0:
+	case 1:
+		b = append(b, badChunks[r.intn(len(badChunks))]...)
+	case 2:
+		b = append(b, '\r', '\n')
+	default:
+		alg := algs[r.intn(4)]
+		bo := boosted[alg]
+		b = appendRune(b, pickRune(r, alg, bo[r.intn(len(bo))]))
+	}
+	for n := r.intn(3); n > 0; n-- {
+		b = appendRune(b, randomRune(r, algs[r.intn(4)]))
+	}
+	return genCase{input: b, kind: "asciirun", tplIdx: -1}
+}
+
+// genEcho: a piece, the same piece again, then something that continues the last cluster or segment -
+// the shape that "same as last time" caches get wrong
+func genEcho(r *rng) genCase {
+	var piece genCase
+	if r.chance(1, 2) {
+		piece = genTemplate(r)
+	} else {
+		piece = genRandom(r)
+	}
+	if len(piece.input) > 200 {
+		piece.input = piece.input[:0]
+		piece.input = appendRune(piece.input, 'a')
+	}
+	b := append([]byte{}, piece.input...)
+	for n := 1 + r.intn(3); n > 0; n-- {
+		b = append(b, piece.input...)
+	}
+	algs := []byte("GWSL")
+	for n := 1 + r.intn(2); n > 0; n-- {
+		alg := algs[r.intn(4)]
+		bo := boosted[alg]
+		b = appendRune(b, pickRune(r, alg, bo[r.intn(len(bo))]))
+	}
+	b = append(b, piece.input...)
+	return genCase{input: b, kind: "echo", tplIdx: -1}
+}
+
+// genBigCluster: one grapheme cluster (or look-ahead span) of a length around a power of two: a base,
+// then a long run of one kind of attaching code point - spacing marks add to the width, Extend and ZWJ
+// do not, Prepend comes first - so that byte lengths, code point counts and widths all reach the
+// thresholds where a narrow field, a bounded window or a "long cluster" shortcut would show
+func genBigCluster(r *rng) genCase {
+	var b []byte
+	algs := []byte("GWSL")
+	for n := r.intn(3); n > 0; n-- {
+		b = appendRune(b, randomRune(r, algs[r.intn(4)]))
+	}
+	n := specialRuns[r.intn(len(specialRuns))]
+	if r.chance(1, 5) {
+		n = hugeRuns[r.intn(len(hugeRuns))]
+	}
+	kinds := []int{c("prSpacingMark"), c("prExtend"), c("prZWJ"), c("prPrepend")}
+	k := kinds[r.intn(len(kinds))]
+	x := pickRune(r, 'G', k)
+	if k == c("prPrepend") {
+		for i := 0; i < n; i++ {
+			b = appendRune(b, x)
+		}
+		b = appendRune(b, randomRune(r, 'G'))
+	} else {
+		b = appendRune(b, randomRune(r, 'G'))
+		for i := 0; i < n; i++ {
+			if r.chance(1, 50) {
+				x = pickRune(r, 'G', k)
+			}
+			b = appendRune(b, x)
+		}
+	}
+	for n := r.intn(4); n > 0; n-- {
+		b = appendRune(b, randomRune(r, algs[r.intn(4)]))
+	}
+	return genCase{input: b, kind: "bigcluster", tplIdx: -1}
+}
+
+// genFarLook: the deciding code point of a look-ahead rule (SB8, WB6/7/7b/7c/11/12, LB25) at a distance
+// around a power of two or a round number, measured in code points of one to four bytes each
+func genFarLook(r *rng) genCase {
+	type pat struct {
+		alg                  byte
+		pre, skip, decide    []string
+	}
+	pats := []pat{
+		{'S', []string{"Lower|Upper|OLetter|XX", "ATerm", "Close|Sp|XX"}, []string{"XX", "Numeric", "Close", "SContinue", "Sp", "Extend", "Format"}, []string{"Lower", "Upper", "OLetter", "STerm", "ATerm", "Sep"}},
+		{'S', []string{"ATerm", "Sp"}, []string{"Numeric", "XX"}, []string{"Lower", "Upper"}},
+		{'W', []string{"ALetter|HebrewLetter|Numeric", "MidLetter|MidNumLet|MidNum|SingleQuote|DoubleQuote"}, []string{"Extend", "Format", "ZWJ"}, []string{"ALetter", "HebrewLetter", "Numeric", "XX", "Katakana"}},
+		{'L', []string{"PR|PO", "OP|HY"}, []string{"CM", "ZWJ"}, []string{"NU", "AL", "OP"}},
+		{'L', []string{"AL|HL|NU|CP", "CM|ZWJ"}, []string{"CM", "ZWJ"}, []string{"AL", "NU", "OP", "SP", "ID"}},
+	}
+	p := pats[r.intn(len(pats))]
+	pick := func(spec string) rune {
+		alts := strings.Split(spec, "|")
+		return pickRune(r, p.alg, className(p.alg, alts[r.intn(len(alts))]))
+	}
+	var b []byte
+	for n := r.intn(3); n > 0; n-- {
+		b = appendRune(b, randomRune(r, p.alg))
+	}
+	for _, t := range p.pre {
+		b = appendRune(b, pick(t))
+	}
+	n := specialRuns[r.intn(len(specialRuns))]
+	if r.chance(1, 5) {
+		n = hugeRuns[r.intn(len(hugeRuns))]
+	}
+	x := pick(p.skip[r.intn(len(p.skip))])
+	mixed := r.chance(1, 3)
+	for i := 0; i < n; i++ {
+		if mixed && r.chance(1, 4) {
+			x = pick(p.skip[r.intn(len(p.skip))])
+		}
+		b = appendRune(b, x)
+	}
+	b = appendRune(b, pick(p.decide[r.intn(len(p.decide))]))
+	for n := r.intn(4); n > 0; n-- {
+		b = appendRune(b, randomRune(r, p.alg))
+	}
+	return genCase{input: b, kind: "farlook", tplIdx: -1}
+}
+
 func genAny(r *rng) genCase {
-	switch x := r.intn(10); {
-	case x < 4:
+	switch x := r.intn(26); {
+	case x == 25:
+		return genFarLook(r)
+	case x == 24:
+		return genBigCluster(r)
+	case x < 9:
 		return genTemplate(r)
-	case x < 7:
+	case x < 15:
 		return genRandom(r)
+	case x < 17:
+		return genASCIIRun(r)
+	case x < 18:
+		return genEcho(r)
 	default:
 		return genMalformed(r)
+	}
+}
+
+// modelSized: the Lean driver's chain and spec functions are quadratic; inputs beyond this size go to the
+// oracle-free monitors only
+func modelSized(b []byte) bool { return len(b) <= 300 }
+
+// byteSequences enumerates ALL byte strings of length 1..n over a 12-byte alphabet that has every kind of
+// byte (ASCII, a line break, low/middle/high continuation bytes, two-, three- and four-byte leads with
+// and without restricted second-byte ranges): fast paths keyed on byte values and alignments, and every
+// way a sequence can be truncated or interrupted, at every position of a short input
+var byteAlphabet = []byte{'a', '\n', 0x80, 0xa5, 0xbf, 0xc3, 0xe0, 0xe6, 0xe9, 0xed, 0xf0, 0xf4}
+
+func byteSequences(n int, emit func([]byte)) {
+	buf := make([]byte, n)
+	var rec func(d, l int)
+	rec = func(d, l int) {
+		if d == l {
+			emit(append([]byte{}, buf[:l]...))
+			return
+		}
+		for _, x := range byteAlphabet {
+			buf[d] = x
+			rec(d+1, l)
+		}
+	}
+	for l := 1; l <= n; l++ {
+		rec(0, l)
 	}
 }
 
